@@ -126,7 +126,13 @@ class ObjectMeta(type, Element):
             # Inherited containers are copied, so that editing them on the
             # subclass does not edit the base class.
             value = getattr(cls, attr, default)
-            return copy(value) if isinstance(value, (list, dict)) else value
+            if isinstance(value, dict):
+                # E.G. the property lists of `dependencies`.
+                return {
+                    key: copy(val) if isinstance(val, list) else val
+                    for key, val in value.items()
+                }
+            return copy(value) if isinstance(value, list) else value
 
         get_value = (
             lambda value, attr: value
